@@ -113,6 +113,7 @@ def class_guard(cls, report=None):
 
 def fresh_encode(p, params, **kw):
     """encode on a fresh instance; returns (code, None) or (None, exception)."""
+    vlib.drain_workers()
     with class_guard(p['cls']):
         try:
             return p['cls']().encode(**params, **kw), None
